@@ -14,6 +14,9 @@ Rules (keys are rule:unit:function:construct):
         are not folded either (eval2, eval_double); is_const_expr folds an operand only after it was found constant
   R07.10 relocation out-parameter of eval2 / eval_rval: written at most once per evaluation, by the operand that
         can denote the address, whose value enters the result additively; never through a null pointer
+  R07.11 environment of the defining constant expression: a scope entry (the record an identifier's constant value is
+        read from) is complete before any call that can resolve identifiers runs; no path creates the entry, parses /
+        folds an expression and writes the entry afterwards (an enumerator is not visible in its own definition)
 
 The folder (parse.c eval2 / eval_double / is_const_expr) is summarised once per
 node kind by a path-splitting symbolic executor (sa/lib_c07.py) that keeps, for
@@ -25,6 +28,7 @@ Nothing is compiled or run.
 """
 from ..build import AnalysisBroken
 from ..chibi import Catalogue
+from ..lib_c07_env import EntryFlow, table_model, reaching
 from ..lib_c07 import (SymExec, TypeFacts, Unsupported, pred_tables, show, tshow, strip_casts, strip_widening, walk,
                        chain_signature, oracle_signature, ctype, WITNESS)
 
@@ -216,6 +220,7 @@ def run(P, rep, tier):
     r077(F, P, rep)
     r079(F, rep)
     r0710(F, rep)
+    r0711(F, rep)
 
 
 # ------------------------------------------------------------------ R07.8 ---
@@ -226,8 +231,8 @@ def _core(v):
     while True:
         if v[0] == 'cast':
             chain.append((v[1], v[2])); v = v[3]
-        elif v[0] == 'bin' and v[1] == '!=' and strip_widening(v[3]) == ('int', 0) and v[4][0] in ('i', 'b'):
-            chain.append((('b',), v[4])); v = v[2]
+        elif v[0] == 'bin' and v[1] == '!=' and _is_zero(v[3]) and v[4][0] in ('i', 'b', 'f'):
+            chain.append((('b',), v[4])); v = v[2]      # also a floating value compared with 0.0: C11 6.3.1.2
         else:
             break
     chain.reverse()
@@ -601,7 +606,13 @@ def r072(F, rep):
                     if not r or r[1] != 'lhs' or r[0] not in INT_FOLD + ('eval_double',):
                         good = False; msg = 'a cast to %s yields %s, which is not a conversion of the folded operand' % (t, show(p.outcome[1])); continue
                     if r[0] == 'eval_double':
-                        continue      # conversion from floating: owned by R07.6
+                        # conversion from floating: truncation is the C conversion except to _Bool (operand through eval: R07.6),
+                        # where the floating value itself is compared with zero
+                        if cls == 'bool' and (not chain or chain[0][0][0] != 'b' or chain[0][1][0] != 'f'):
+                            good = False
+                            msg = ('a cast of a floating operand to _Bool is folded as %s: the operand is converted to an integer before it is compared with zero, '
+                                   'so (_Bool)0.5 folds to 0' % show(p.outcome[1]))
+                        continue
                     if any(to[0] not in ('i', 'b') for to, frm in chain):
                         und = 'conversion chain %s is not integral' % show(p.outcome[1]); continue
                     sig = chain_signature(chain)
@@ -1169,6 +1180,62 @@ def r0710(F, rep):
                 rep.undecided('R07.10', '%s:%s:%s/relocation' % (U, fname, kind), und, where=w)
             elif not bad:
                 rep.ob('R07.10', '%s:%s:%s/relocation' % (U, fname, kind), True, '', where=w)
+
+
+# ----------------------------------------------------------------- R07.11 ---
+def r0711(F, rep):
+    u = F.u
+    rep.rule('R07.11', 'the identifier environment of a constant expression holds only complete entries: on no path of any function is a scope entry created '
+                       '(inserted into the identifier table), an identifier-resolving call made (const_expr and everything else that reaches the table lookup), and the '
+                       'entry written afterwards; an enumerator is therefore not visible, with a provisional value, inside its own defining constant expression', floor=4)
+    entry_types, inserters, lookups, graph = table_model(u)
+    if not entry_types or not inserters or not lookups:
+        raise AnalysisBroken('identifier table of parse.c not recognised (entry types %s, inserters %s, lookups %s)' % (sorted(entry_types), sorted(inserters), sorted(lookups)))
+    resolvers = reaching(graph, lookups)
+    may_insert = reaching(graph, inserters)
+
+    def ret_type(fd):
+        t = (fd.type or '')
+        return t.split('(')[0].replace('struct ', '').replace('const ', '').replace(' ', '')
+    creators = set(f for f in may_insert if f in u.functions and ret_type(u.functions[f]) in entry_types)
+    if not creators:
+        raise AnalysisBroken('no function of parse.c returns a freshly inserted scope entry')
+    for need in ('const_expr',):
+        if need not in resolvers:
+            rep.undecided('R07.11', '%s:%s:reaches-lookup' % (U, need), '%s no longer reaches the lookup of the identifier table (%s): the model of what resolves identifiers is broken' % (need, ','.join(sorted(lookups))))
+            return
+    flow = EntryFlow(u, creators, resolvers)
+    for fname in sorted(u.functions):
+        fd = u.functions[fname]
+        sites = flow.analyse(fd)
+        merged = {}
+        for s in sites:
+            if s.how == 'returned' and fname in creators:
+                key = 'scope-entry(returned)'
+            elif s.how == 'other':
+                key = 'scope-entry(escapes)'
+                s.und = s.und or 'the result of %s is neither bound to a local nor written directly: where the entry is completed is not decided' % s.creator
+            else:
+                key = 'scope-entry(%s)' % ','.join(sorted(s.fields))
+            m = merged.setdefault(key, {'late': {}, 'und': None, 'line': s.node.line, 'creator': s.creator})
+            for f, via in s.late.items():
+                m['late'].setdefault(f, via)
+            m['und'] = m['und'] or s.und
+        for key, m in sorted(merged.items()):
+            w = '%s:%d' % (U, m['line'])
+            if m['late']:
+                fields = sorted(m['late'])
+                vias = sorted(set(m['late'].values()))
+                rep.ob('R07.11', '%s:%s:%s/visible-before-complete:%s' % (U, fname, key, ','.join(fields)), False,
+                       '%s enters an identifier into scope with %s() and writes the entry\'s field(s) %s only after %s ran: the expression parsed in between resolves the identifier to the '
+                       'half-initialised entry (calloc\'ed fields), so a constant expression that mentions the name being defined (`enum { N = N + 1 }` inside a scope where an outer N exists; C11 6.2.1p7: '
+                       'the scope of an enumerator begins just after its definition) is folded with a value the identifier has in no execution, and every enumerator, array bound and case label '
+                       'derived from it differs from run-time evaluation' % (fname, m['creator'], ','.join(fields), ','.join(vias)), where=w,
+                       facts={'creator': m['creator'], 'late_fields': fields, 'between': vias})
+            elif m['und']:
+                rep.undecided('R07.11', '%s:%s:%s' % (U, fname, key), m['und'], where=w)
+            else:
+                rep.ob('R07.11', '%s:%s:%s' % (U, fname, key), True, '', where=w)
 
 
 # ------------------------------------------------------------------ R07.3 ---
